@@ -34,6 +34,22 @@ def setText (k : Kind) (els : List Val) : String :=
   let sorted := items.toArray.qsort (· < ·) |>.toList
   s!"set:{kindName k}:n{els.length}:" ++ "{" ++ "|".intercalate sorted ++ "}"
 
+/-- the kinds a function declares: a parameter `p<k2>` converts the argument, a result kind `<k2>` converts the value of
+    the body, both through `Value::convert_to`.  Where the source can be converted without an annotation
+    (`implicitlyConvertible`: the same kind, a wider integer, integer ↔ float, float ↔ float) the value is the converted
+    number — the property demands that.  Elsewhere a parameter refuses the argument and a result keeps the body's value
+    as it is (modelled, not demanded). -/
+def runConvFn (isArg : Bool) (k1n k2n ot obs : String) : String × String × String :=
+  match kindOfName k1n, kindOfName k2n with
+  | some k1, some k2 =>
+    (match parseOperand k1 ot with
+     | some (.scalar v) =>
+       let spec := match convertScalar hwConv k1 k2 v with | .ok y => operandText k2 (.scalar y) | .error _ => "err"
+       if implicitlyConvertible k1 k2 then (spec, if obs == spec then "ok" else "bad:expected " ++ spec, "-")
+       else (if isArg then "err" else operandText k1 (.scalar v), "ok", "-")
+     | _ => ("bad-case", "bad-case", "-"))
+  | _, _ => ("bad-case", "bad-case", "-")
+
 def runC12 (fields : List String) (obs : String) : String × String × String :=
   let eqv (m : String) := (m, if obs == m then "ok" else "bad:expected " ++ m, "-")
   let res (model spec region : String) := (model, if obs == spec then "ok" else "bad:expected " ++ spec, if model == spec then "-" else region)
@@ -41,6 +57,8 @@ def runC12 (fields : List String) (obs : String) : String × String × String :=
   -- the converted value does not depend on it
   match fields.filter (fun f => !f.startsWith "form=") with
   | ["optempty", _] => eqv "empty"
+  | ["convarg", k1n, k2n, ot] => runConvFn true k1n k2n ot obs
+  | ["convres", k1n, k2n, ot] => runConvFn false k1n k2n ot obs
   | ["convopt", k1n, k2n, ot] =>
     -- an option kind `k2?` takes a value exactly as `k2` does, or refuses it (either satisfies the property).  Which of
     -- the two happens is modelled: the value goes through `Value::convert_to`, which converts exactly the pairs
